@@ -95,12 +95,18 @@ Theorem C14_one_action_per_entry : forall running unknown qupd e, (List.length (
 Proof. exact one_action_per_entry. Qed.
 Print Assumptions C14_one_action_per_entry.
 
+(* F21 (fixed in /repo dbd540e): requeue re-checks the queue when its goroutine runs; nothing is unlocked
+   that queue.Get does not show Locked at that moment *)
+Theorem C14_requeue_rechecks_queue : forall acts now u, In u (sync_unlocks acts now) -> nlook u now = Some Locked.
+Proof. exact requeue_rechecks. Qed.
+Print Assumptions C14_requeue_rechecks_queue.
+
 (* the boolean specification of the sync stage is the Prop-level one, and the model meets it *)
 Theorem C14_sync_spec_reflects : forall c, C14_sync_run.spec_b c = true <-> SyncSpec c.
 Proof. exact sync_spec_reflects. Qed.
 Print Assumptions C14_sync_spec_reflects.
 
-Theorem C14_sync_meets_spec : forall ents running unknown qupd latch, SyncSpec (model_obs ents running unknown qupd latch).
+Theorem C14_sync_meets_spec : forall ents running unknown qupd latch now, SyncSpec (model_obs ents running unknown qupd latch now).
 Proof. exact sync_meets_spec. Qed.
 Print Assumptions C14_sync_meets_spec.
 
@@ -199,8 +205,7 @@ Print Assumptions C14_e2e_judge_reflects.
 Theorem C14_e2e_start_ok_spec : forall s t vm u b,
   C14_e2e_run.start_ok s t vm u b = true <->
   ~ In u (map snd (j_live s)) /\ ~ In u (map snd (j_infl s)) /\
-  (In u (j_locked s) \/ exists tu, lookZ u (j_unlocked s) = Some tu /\ t <= tu + grace) /\
-  (forall tc, lookZ u (j_cancelled s) = Some tc -> t <= tc + grace) /\
+  In u (j_locked s) /\ (forall tc, lookZ u (j_cancelled s) = Some tc -> t <= tc + grace) /\
   b = false /\ (forall tb, lookZ vm (j_bad s) = Some tb -> t <= tb + grace).
 Proof. exact start_ok_spec. Qed.
 Print Assumptions C14_e2e_start_ok_spec.
